@@ -266,6 +266,19 @@ def scan():
             for v in tuple_variants:
                 for m in re.finditer(r"\b" + v + r"\(\s*(?:ref\s+|mut\s+)*([a-z_][a-z0-9_]*)\s*\)", body):
                     names.add(m.group(1))
+            # a hash FIELD bound to another name by a pattern (`All { except: e_e, .. }`) or filled from a variable
+            # (`All { except: rest }`): that name is a hash container too (by name: over-approximation)
+            for m in re.finditer(r"\b(" + FIELD_ALT + r")\s*:\s*(?:ref\s+|mut\s+|&\s*)*([a-z_][a-z0-9_]*)\s*(?=[,}])", body):
+                if m.group(2) not in ("true", "false", "none"):
+                    names.add(m.group(2))
+            # the result of a set operator on hash containers (`let rest = a - &b;`)
+            changed = True
+            while changed:
+                changed = False
+                for m in re.finditer(r"\blet\s+(?:mut\s+)?([a-z_][a-z0-9_]*)\s*=\s*&?\s*([a-z_][a-z0-9_]*)\s*[-|&^]\s*&?\s*([a-z_][a-z0-9_]*)\s*;", body):
+                    if (m.group(2) in names or m.group(3) in names) and m.group(1) not in names:
+                        names.add(m.group(1))
+                        changed = True
             local[(s, e)] = names
         # 2. enumeration sites: every identifier occurrence followed by an enumerating use
         meth = "|".join(ITER_METHODS)
@@ -424,6 +437,10 @@ CLASSES = {
     ("prqlc:semantic/resolver/names.rs", "ambiguous_error", "idents.iter("): (S, r"idents\.iter\(\)\.all\(", "all(): reduce_order_indep"),
     ("prqlc:semantic/resolver/names.rs", "ambiguous_error", "for mut ident in idents"):
         (S, r"fn:chunks\.push\(ident\.to_string\(\)\);\}chunks\.sort\(\);", "the strings are sorted before they are joined"),
+    ("prqlc:semantic/resolver/transforms.rs", "append", "extend(except_b)"):
+        (S, r"fn:let mut except=except_t;except\.extend\(except_b\);", "one hash set extended by another one (set union): reduce_order_indep"),
+    ("prqlc:semantic/resolver/transforms.rs", "Lineage::apply_assign", "e_e.difference("):
+        (S, r"e_e\.difference\(&except\)\.sorted\(\)", "the surviving names of a nested exclusion are sorted before they become columns"),
     ("prqlc:semantic/resolver/transforms.rs", "parse_json1", "data.into_iter("):
         (N, r"fn:let data:Vec<JsonFormat1Row>=", "`data` is a Vec of rows; the column names of the first row are sorted (`columns.sort()`)"),
     # ---- sql backend -----------------------------------------------------------------------------------------------
